@@ -128,12 +128,34 @@ static void gen_roundtrip(G &g, bool isal) {
     if (isal && g.world.chance(1, 8)) { static const int ws[] = {8, 16, 32}; c.w = ws[g.world.below(3)]; }   // accepted word sizes
     g.ops.push(create_op(0, c));
     bool free_run = g.world.chance(1, 4);  // fault-free configuration, run separately
+    // a bystander: a second live instance (same backend family more often than not, other shape) that is used with the
+    // same loss pattern or destroyed in the middle of the main instance's traffic - other instances must not matter
+    bool by = !free_run && g.world.chance(1, 5), by_done = false; Cfg bc;
+    if (by) {
+        bc = g.world.chance(2, 3) ? (c.be == BE_XOR ? xor_shape_index((int) g.world.below(XOR_GOLDEN_N)) : rs_shape(g.world, c.be)) : any_coded_shape(g.world);
+        if (c.be != BE_XOR && bc.be == c.be && g.world.chance(1, 2)) { bc.k = c.k; if (bc.m == c.m) bc.m = c.m > 1 ? c.m - 1 : c.m + 1; if (bc.k + bc.m > 32) bc.m = 32 - bc.k; bc.hd = bc.m; }
+        bc.ct = c.ct;
+        g.ops.push(create_op(1, bc));
+        Json p = put_op(g, 9, 1, bc); p.set("len", (i64) g.data.range(1, 2000)); g.ops.push(p);
+    }
     int nobj = g.plan.chance(1, 4) ? 2 : 1;
     for (int o = 0; o < nobj; o++) {
         g.ops.push(put_op(g, o, 0, c));
         int gets = (int) g.plan.range(1, 3);
         for (int i = 0; i < gets; i++) {
             u64 s = free_run ? full(c.n()) : survivors_within(g, c);
+            if (by && !by_done && g.plan.chance(1, 2)) {
+                by_done = true;
+                if (g.plan.chance(1, 2)) g.ops.push(mk("DESTROY").set("slot", 1));
+                else {
+                    u64 lost = (full(c.n()) & ~s) & full(bc.n());
+                    if (__builtin_popcountll(lost) > tolerance(bc)) lost = 0;
+                    u64 bs = full(bc.n()) & ~lost;
+                    Json j = mk("GET"); j.set("obj", 9).set("slot", 1).set("force", 0).set("dl", delivery(g, bs, bc.n(), false)); g.ops.push(j);
+                    int dest = 0; for (int q = 0; q < bc.n(); q++) if ((lost >> q) & 1) { dest = q; break; }
+                    Json r2 = mk("REPAIR"); r2.set("obj", 9).set("slot", 1).set("dest", dest).set("oal", 16).set("dl", delivery(g, bs, bc.n(), false)); g.ops.push(r2);
+                }
+            }
             Json j = mk("GET"); j.set("obj", o).set("slot", 0).set("force", g.faults.chance(1, 3) ? 1 : 0).set("dl", delivery(g, s, c.n(), !free_run));
             g.ops.push(j);
             if (g.plan.chance(1, 8)) g.ops.push(j);   // the same call again: results must not depend on what a previous call left behind
@@ -251,6 +273,12 @@ static void gen_c05(G &g, u64 base_seed) {
     Json p = put_op(g, 0, 0, c);
     // payload sizes: non-multiples of 16 and of 4 bytes per fragment are the kernel's tail paths
     if (g.data.chance(1, 2)) p.set("len", (i64) ((u64) c.k * 4 * g.data.range(1, 300) - (u64) g.data.range(0, 3)));
+    if (c.k <= 6 && g.data.chance(1, g.thorough ? 40 : 120)) {
+        // large fragments: (1 or 2 MiB) + a tail that is not a multiple of 16 bytes
+        static const int tails[] = {4, 8, 12, 0, 20, 28};
+        u64 frag = ((u64) g.data.range(1, 2) << 20) + (u64) tails[g.data.below(6)];
+        p.set("len", (i64) ((u64) c.k * frag - (u64) g.data.range(0, 3)));
+    }
     g.ops.push(p);
     u64 s = full(c.n()) & ~xs.lost;
     Json j = mk("GET"); j.set("obj", 0).set("slot", 0).set("force", 0).set("dl", delivery(g, s, c.n(), g.faults.chance(1, 2))); g.ops.push(j);
@@ -328,10 +356,12 @@ static Json header_damage(G &g, u64 flen, bool allow_semantic) {
         // side of the 1.2.0 gate, with a CRC that is right, stale, or of the historical flavour
         static const u32 vs[] = {0x010000, 0x010001, 0x010105, 0x010100, 0x0101ff, 0x010200, 0x010201, 0x010604, 0x020000, 0x030000, 0x000001, 0x7f0000};
         Json c = Json::arr();
-        bool first = r.chance(1, 2);
-        if (first) c.push(fx1("endian"));
-        c.push(fx_field("libver", vs[r.below(12)], (int) r.below(3)));
-        if (!first) c.push(fx1("endian"));
+        int order = (int) r.below(3);   // 0: endian first, 1: endian last, 2: host order
+        if (order == 0) c.push(fx1("endian"));
+        // any 32-bit word can sit in the version field (it is outside the CRC'd bytes): named releases and arbitrary words
+        u32 ver = r.chance(2, 3) ? vs[r.below(12)] : (u32) (r.next() >> (r.below(4) * 8)) ;
+        c.push(fx_field("libver", ver, (int) r.below(3)));
+        if (order == 1) c.push(fx1("endian"));
         unsigned y = (unsigned) r.below(4);
         if (y == 0) c.push(fx_field("metacrc", (i64) (r.next() & 0xffffffffu), 0));
         else if (y == 1) c.push(fx_flip((i64) r.below(ref::META * 8)));
@@ -386,12 +416,15 @@ static void gen_c10(G &g) {
     static const char *envs[] = {nullptr, "", "0", "1", "yes", "00", "true", "01", " ", "no"};
     Cfg c = any_coded_shape(g.world, false, true); c.ct = 2;
     if (g.world.chance(1, 2)) { c = rs_shape(g.world, BE_RS); c.k = (int) g.world.range(1, 5); c.m = (int) g.world.range(1, 3); c.hd = c.m; c.ct = 2; }
+    bool special_crc = g.world.chance(1, 16);
+    if (special_crc) { c = Cfg(); c.be = BE_RS; c.k = 1; c.m = (int) g.world.range(1, 3); c.hd = c.m; c.ct = 2; }
     g.ops.push(create_op(0, c));
     int n = c.n();
     int objs = (int) g.plan.range(1, 2);
     for (int o = 0; o < objs; o++) {
         Json p = put_op(g, o, 0, c);
-        bool tiny = g.data.chance(1, 3);
+        if (special_crc) p.set("len", (i64) (2 * g.data.range(4, 300))).set("pat", g.data.chance(1, 2) ? 5 : 6);   // stored checksum 0 / all ones
+        bool tiny = !special_crc && g.data.chance(1, 3);
         if (tiny) p.set("len", (i64) g.data.range(0, (i64) c.k * 16));   // payloads <= 64 bytes: every single bit is flipped over the sweep
         const char *e = envs[g.faults.below(10)];
         if (e) p.set("env", e); else p.set("env", Json());
